@@ -496,7 +496,11 @@ func (c *compiler) evalIdentifier(node *ast.Identifier) (interface{}, error) {
 			return nil, fmt.Errorf("'%s' does not have a field or method named '%s' (%s)", node.Callee.String(), node.Value, node)
 		}
 
-		f := rv.FieldByName(node.Value)
+		var f reflect.Value
+		if sf, ok := rv.Type().FieldByName(node.Value); ok {
+			// FieldByIndexErr does not panic when the field is promoted through a nil embedded pointer
+			f, _ = rv.FieldByIndexErr(sf.Index)
+		}
 		if f.Kind() == reflect.Ptr {
 			if f.IsNil() {
 				return nil, nil
